@@ -1,8 +1,773 @@
-//! C14 — monitor not built yet.
+//! C14 — rewind restores exactly the checkpointed files, from any later state and any cwd.
+//!
+//! Model: at every checkpoint (manual or automatic) the harness records, for every covered path
+//! *resolved lexically against the workspace root*, `Some(sha256)` or `None`, taken from the real tree
+//! just before the checkpoint. Histories (checkpoint sets with existing / missing / nested paths given
+//! relative and absolute; write / apply_patch(add, update, move, delete) through `ToolRunner::run` or
+//! the router; raw deletes / mkdirs / external writes; several checkpoints and rewinds in arbitrary
+//! order; unknown ids, corrupted `checkpoint.json`, removed stored copies) run in a child process per
+//! configuration (`rv c13-child`; cwd = root / outer / sibling with same-named files / sub-directory / "/").
+//!
+//! Oracle (on the real trees the child reports after every step):
+//!  * creating a checkpoint does not change the workspace;
+//!  * successful rewind: every covered path matches its record, every other path is untouched;
+//!  * failed rewind: the whole tree (files) is identical to before;
+//!  * write / apply_patch via ToolRunner::run: when the invocation is well-formed an auto
+//!    `checkpoint_created` frame precedes `tool_started`, its file list covers every named path, every
+//!    path the tool really changed is covered, and rewinding to it restores the recorded state.
+
+use crate::c12::gen_patch::{self as gp, Fresh, Op, PatchDoc, Shape, WsModel};
+use crate::c13::{build_layout, cwd_path, trunc, ws_child, Layout, CWDS};
+use crate::fixture::scratch_root;
+use crate::prng::Rng;
 use crate::report::{Cfg, Report};
+use serde_json::{json, Value};
+use std::collections::{BTreeMap, BTreeSet};
+use std::path::{Component, Path};
+use std::time::Duration;
+
+const DIRECTED: u64 = 5;
+
+type Tree = BTreeMap<String, (String, String)>; // path -> (kind, sha)
+
+fn parse_tree(v: Option<&Value>) -> Tree {
+    let mut t = Tree::new();
+    if let Some(m) = v.and_then(|x| x.as_object()) {
+        for (p, e) in m {
+            let kind = e.get(0).and_then(|x| x.as_str()).unwrap_or("?").to_string();
+            let sha = e.get(1).and_then(|x| x.as_str()).unwrap_or("").to_string();
+            t.insert(p.clone(), (kind, sha));
+        }
+    }
+    t
+}
+
+/// file state of a path: Some(sha) for a regular file, None when absent (or a directory)
+fn file_state(t: &Tree, p: &str) -> Option<String> {
+    match t.get(p) {
+        Some((k, sha)) if k == "f" => Some(sha.clone()),
+        _ => None,
+    }
+}
+
+fn files_only(t: &Tree) -> BTreeMap<&String, &String> {
+    t.iter().filter(|(_, (k, _))| k == "f").map(|(p, (_, s))| (p, s)).collect()
+}
+
+fn changed_files(a: &Tree, b: &Tree) -> BTreeSet<String> {
+    let (fa, fb) = (files_only(a), files_only(b));
+    let mut out = BTreeSet::new();
+    for (p, s) in &fa {
+        if fb.get(*p) != Some(s) {
+            out.insert((*p).clone());
+        }
+    }
+    for p in fb.keys() {
+        if !fa.contains_key(*p) {
+            out.insert((*p).clone());
+        }
+    }
+    out
+}
+
+/// Lexical resolution of a checkpoint / tool path against the workspace root.
+fn normalize(root: &Path, arg: &str) -> Option<String> {
+    let p = Path::new(arg);
+    let rel = if p.is_absolute() { p.strip_prefix(root).ok()?.to_path_buf() } else { p.to_path_buf() };
+    let mut parts: Vec<String> = Vec::new();
+    for c in rel.components() {
+        match c {
+            Component::Normal(s) => parts.push(s.to_string_lossy().to_string()),
+            Component::CurDir => {}
+            _ => return None,
+        }
+    }
+    Some(parts.join("/"))
+}
+
+#[derive(Clone, Debug)]
+enum Plan {
+    /// manual checkpoint; (arg string, is_absolute)
+    Create { args: Vec<String> },
+    /// write / apply_patch through the tool runner (auto checkpoint); named = paths the invocation names
+    Tool { name: &'static str, named: Vec<String>, well_formed: bool },
+    Rewind { target: usize, expect_fail: bool },
+    RewindUnknown,
+    Harness,
+}
+
+struct History {
+    steps: Vec<Value>,
+    plans: Vec<Plan>,
+    driver: &'static str,
+    shape: Vec<String>,
+}
+
+const POOL: &[&str] = &[
+    "a.txt", "sub/b.txt", "sub/deep/c.txt", "sp ace.txt", "only_in_root.txt", "new.txt", "sub/new2.txt", "nd/x/y.txt", "ünï.txt", "peer.txt",
+];
+
+fn initial_model() -> WsModel {
+    let mut m = WsModel::default();
+    m.put("a.txt", b"inside a\n".to_vec());
+    m.put("sub/b.txt", b"inside b\n".to_vec());
+    m.put("sub/deep/c.txt", b"inside c\n".to_vec());
+    m.put("sp ace.txt", b"inside space\n".to_vec());
+    m.put("only_in_root.txt", b"inside only\n".to_vec());
+    m.dirs.insert("d".into());
+    m
+}
+
+struct Gen<'a> {
+    l: &'a Layout,
+    rng: Rng,
+    m: WsModel,
+    h: History,
+    /// predicted snapshots: step index -> (covered rel paths -> predicted bytes)
+    snaps: BTreeMap<usize, BTreeMap<String, Option<Vec<u8>>>>,
+    corrupted: BTreeSet<usize>,
+    fresh: Fresh,
+    serial: u32,
+    token: u32,
+}
+
+impl<'a> Gen<'a> {
+    fn root_s(&self) -> String {
+        self.l.root.to_string_lossy().to_string()
+    }
+    fn push(&mut self, step: Value, plan: Plan, tag: &str) -> usize {
+        self.h.steps.push(step);
+        self.h.plans.push(plan);
+        self.h.shape.push(tag.to_string());
+        self.h.steps.len() - 1
+    }
+    fn render_arg(&mut self, rel: &str) -> String {
+        match self.rng.below(10) {
+            0..=3 => format!("{}/{rel}", self.root_s()),
+            4 => format!("./{rel}"),
+            _ => rel.to_string(),
+        }
+    }
+    fn create(&mut self, forced: Option<Vec<String>>) {
+        let args: Vec<String> = match forced {
+            Some(a) => a,
+            None => {
+                let n = 1 + self.rng.usize(4);
+                let mut seen = BTreeSet::new();
+                let mut v = Vec::new();
+                for _ in 0..n {
+                    let existing: Vec<String> = self.m.files.keys().cloned().collect();
+                    let rel = if !existing.is_empty() && self.rng.chance(3, 5) {
+                        self.rng.pick(&existing).clone()
+                    } else {
+                        POOL[self.rng.usize(POOL.len())].to_string()
+                    };
+                    if seen.insert(rel.clone()) && !self.m.is_dir(&rel) && gp::is_clean_rel(&rel) {
+                        v.push(self.render_arg(&rel));
+                    }
+                }
+                if v.is_empty() {
+                    v.push("a.txt".into());
+                }
+                v
+            }
+        };
+        let mut snap = BTreeMap::new();
+        for a in &args {
+            if let Some(rel) = normalize(&self.l.root, a) {
+                snap.insert(rel.clone(), self.m.files.get(&rel).cloned());
+            }
+        }
+        let driver = match self.h.driver {
+            "router" => "router",
+            "runner" => {
+                if self.rng.bool() {
+                    "runner"
+                } else {
+                    "direct"
+                }
+            }
+            _ => "direct",
+        };
+        let forms: Vec<&str> = args.iter().map(|a| if a.starts_with('/') { "abs" } else { "rel" }).collect();
+        let i = self.push(
+            json!({"op": "cp_create", "driver": driver, "files": args, "label": "c14"}),
+            Plan::Create { args: args.clone() },
+            &format!("create[{}]", forms.join(",")),
+        );
+        self.snaps.insert(i, snap);
+    }
+    fn tool_driver(&self) -> &'static str {
+        if self.h.driver == "router" {
+            "router"
+        } else {
+            "runner"
+        }
+    }
+    fn write(&mut self, to_dir: bool) -> usize {
+        self.token += 1;
+        let rel = if to_dir {
+            "sub".to_string()
+        } else {
+            let existing: Vec<String> = self.m.files.keys().cloned().collect();
+            if !existing.is_empty() && self.rng.chance(2, 3) {
+                self.rng.pick(&existing).clone()
+            } else {
+                POOL[self.rng.usize(POOL.len())].to_string()
+            }
+        };
+        let arg = if self.rng.chance(1, 6) { format!("./{rel}") } else { rel.clone() };
+        let content = format!("written {} by tool\nline two\n", self.token);
+        let mut args = json!({"path": arg, "content": content});
+        match self.rng.below(4) {
+            0 => args["atomic"] = json!(false),
+            1 => args["append"] = json!(true),
+            _ => {}
+        }
+        let mut snap = BTreeMap::new();
+        snap.insert(rel.clone(), self.m.files.get(&rel).cloned());
+        let i = self.push(
+            json!({"op": "tool", "driver": self.tool_driver(), "name": "write", "args": args}),
+            Plan::Tool { name: "write", named: vec![rel.clone()], well_formed: true },
+            if to_dir { "write_to_dir" } else { "write" },
+        );
+        self.snaps.insert(i, snap);
+        if !to_dir && self.m.parents_ok(&rel) && !self.m.is_dir(&rel) {
+            let mut bytes = if args.get("append").is_some() { self.m.files.get(&rel).cloned().unwrap_or_default() } else { Vec::new() };
+            bytes.extend_from_slice(content.as_bytes());
+            self.m.put(&rel, bytes);
+        }
+        i
+    }
+    fn patch(&mut self) -> usize {
+        let n = 1 + self.rng.usize(3);
+        let mut ops: Vec<Op> = Vec::new();
+        let mut touched: Vec<String> = Vec::new();
+        let mut state = self.m.clone();
+        let mut shape = Shape::default();
+        let mut kinds = Vec::new();
+        for _ in 0..n {
+            let op = gp::gen_constructive_op(&mut self.rng, &state, &touched, &mut self.fresh, &mut self.serial, &mut shape);
+            if let Some(next) = gp::step(&state, &op) {
+                state = next;
+                touched.extend(op.named_paths());
+                kinds.push(op.kind());
+                ops.push(op);
+            }
+        }
+        let well_formed = !ops.is_empty();
+        // occasionally a patch that fails after its first op (rollback + auto checkpoint both in play)
+        let failing = self.rng.chance(1, 8);
+        if failing {
+            ops.push(Op::Delete { path: "definitely-missing.txt".into() });
+            touched.push("definitely-missing.txt".into());
+        }
+        let text = gp::render(&PatchDoc { ops }, false, true);
+        let mut snap = BTreeMap::new();
+        for p in &touched {
+            snap.insert(p.clone(), self.m.files.get(p).cloned());
+        }
+        let i = self.push(
+            json!({"op": "tool", "driver": self.tool_driver(), "name": "apply_patch", "args": {"patch": text}}),
+            Plan::Tool { name: "apply_patch", named: touched.clone(), well_formed },
+            &format!("patch[{}{}]", kinds.join("+"), if failing { "+FAIL" } else { "" }),
+        );
+        self.snaps.insert(i, snap);
+        if !failing {
+            self.m = state;
+        }
+        i
+    }
+    fn harness_edit(&mut self) {
+        self.token += 1;
+        let existing: Vec<String> = self.m.files.keys().cloned().collect();
+        let abs = |rel: &str, root: &str| format!("{root}/{rel}");
+        let root = self.root_s();
+        match self.rng.below(5) {
+            0 | 1 if !existing.is_empty() => {
+                let rel = self.rng.pick(&existing).clone();
+                self.m.files.remove(&rel);
+                self.push(json!({"op": "fs_delete", "path": abs(&rel, &root)}), Plan::Harness, "delete");
+            }
+            2 => {
+                // a directory where a file was / will be
+                let rel = POOL[self.rng.usize(POOL.len())].to_string();
+                if !self.m.exists(&rel) && self.m.parents_ok(&rel) {
+                    self.m.add_parent_dirs(&format!("{rel}/x"));
+                    self.push(json!({"op": "fs_mkdir", "path": abs(&rel, &root)}), Plan::Harness, "mkdir_at_path");
+                } else {
+                    let d = format!("made{}", self.token);
+                    self.m.dirs.insert(d.clone());
+                    self.push(json!({"op": "fs_mkdir", "path": abs(&d, &root)}), Plan::Harness, "mkdir");
+                }
+            }
+            3 if existing.iter().any(|p| p.starts_with("sub/deep/")) || self.m.is_dir("sub/deep") => {
+                // remove a whole sub-tree (covered nested paths lose their parents)
+                let gone: Vec<String> = self.m.files.keys().filter(|p| p.starts_with("sub/deep/")).cloned().collect();
+                for g in gone {
+                    self.m.files.remove(&g);
+                }
+                self.m.dirs.retain(|d| d != "sub/deep" && !d.starts_with("sub/deep/"));
+                self.push(json!({"op": "fs_rmtree", "path": abs("sub/deep", &root)}), Plan::Harness, "rmtree");
+            }
+            _ => {
+                let rel = if !existing.is_empty() && self.rng.bool() {
+                    self.rng.pick(&existing).clone()
+                } else {
+                    POOL[self.rng.usize(POOL.len())].to_string()
+                };
+                if self.m.parents_ok(&rel) && !self.m.is_dir(&rel) {
+                    let content = format!("external edit {}\n", self.token);
+                    self.m.put(&rel, content.clone().into_bytes());
+                    self.push(json!({"op": "fs_write", "path": abs(&rel, &root), "text": content}), Plan::Harness, "ext_write");
+                }
+            }
+        }
+    }
+    fn rewind(&mut self, target: usize, expect_fail: bool) {
+        let driver = match self.h.driver {
+            "router" => "router",
+            "runner" => {
+                if self.rng.bool() {
+                    "runner"
+                } else {
+                    "direct"
+                }
+            }
+            _ => "direct",
+        };
+        self.push(json!({"op": "cp_rewind", "driver": driver, "ref": target}), Plan::Rewind { target, expect_fail }, if expect_fail { "rewind_corrupt" } else { "rewind" });
+        if !expect_fail {
+            if let Some(snap) = self.snaps.get(&target).cloned() {
+                for (p, b) in snap {
+                    match b {
+                        Some(bytes) => {
+                            if self.m.parents_ok(&p) && !self.m.is_dir(&p) {
+                                self.m.put(&p, bytes);
+                            }
+                        }
+                        None => {
+                            self.m.files.remove(&p);
+                        }
+                    }
+                }
+            }
+        }
+    }
+}
+
+fn gen_history(l: &Layout, cfg: &Cfg, idx: u64, cwd_name: &str) -> History {
+    let mut rng = cfg.case_rng(idx ^ 0xC14);
+    let driver = match rng.below(10) {
+        0..=4 => "runner",
+        5..=7 => "router",
+        _ => "direct",
+    };
+    let mut g = Gen {
+        l,
+        rng,
+        m: initial_model(),
+        h: History { steps: Vec::new(), plans: Vec::new(), driver, shape: Vec::new() },
+        snaps: BTreeMap::new(),
+        corrupted: BTreeSet::new(),
+        fresh: Fresh::new(),
+        serial: 5000,
+        token: 0,
+    };
+    if idx < DIRECTED {
+        // directed: probe P2 and its relatives under each cwd (clean when cwd == root)
+        g.h.driver = if idx == 4 { "router" } else { "runner" };
+        let root = g.root_s();
+        g.create(Some(vec!["a.txt".into(), "new.txt".into()])); // 0 relative: existing + missing
+        g.push(json!({"op": "fs_write", "path": format!("{root}/a.txt"), "text": "edited after checkpoint\n"}), Plan::Harness, "ext_write");
+        g.push(json!({"op": "fs_write", "path": format!("{root}/new.txt"), "text": "created after checkpoint\n"}), Plan::Harness, "ext_write");
+        g.rewind(0, false); // 3
+        g.create(Some(vec![format!("{root}/sub/b.txt"), format!("{root}/nd/x/y.txt")])); // 4 absolute
+        g.push(json!({"op": "fs_delete", "path": format!("{root}/sub/b.txt")}), Plan::Harness, "delete");
+        g.push(json!({"op": "fs_write", "path": format!("{root}/nd/x/y.txt"), "text": "nested new\n"}), Plan::Harness, "ext_write");
+        g.rewind(4, false); // 7
+        let w = g.write(false); // 8 (auto checkpoint)
+        g.rewind(w, false);
+        g.m = initial_model();
+        let p = g.push(
+            json!({"op": "tool", "driver": g.tool_driver(), "name": "apply_patch", "args": {"patch": "*** Begin Patch\n*** Update File: a.txt\n*** Move to: moved/a2.txt\n@@\n-inside a\n+patched a\n*** Delete File: sub/b.txt\n*** Add File: added.txt\n+fresh\n*** End Patch"}}),
+            Plan::Tool { name: "apply_patch", named: vec!["a.txt".into(), "moved/a2.txt".into(), "sub/b.txt".into(), "added.txt".into()], well_formed: true },
+            "patch[move+delete+add]",
+        );
+        g.rewind(p, false);
+        g.write(true); // write onto a directory
+        g.create(Some(vec![format!("{root}/sp ace.txt"), format!("{root}/only_in_root.txt")]));
+        let c = g.h.steps.len() - 1;
+        g.push(json!({"op": "fs_write", "path": format!("{root}/sp ace.txt"), "text": "changed 1\n"}), Plan::Harness, "ext_write");
+        g.push(json!({"op": "fs_write", "path": format!("{root}/only_in_root.txt"), "text": "changed 2\n"}), Plan::Harness, "ext_write");
+        g.push(json!({"op": "corrupt_cp", "ref": c, "how": "remove_stored"}), Plan::Harness, "corrupt_remove_stored");
+        g.rewind(c, true);
+        g.push(json!({"op": "cp_rewind", "driver": "runner", "id": "00000000-0000-4000-8000-00000000dead"}), Plan::RewindUnknown, "rewind_unknown");
+        // a directory that shadows the tool's relative path when cwd = root/sub
+        g.push(json!({"op": "fs_mkdir", "path": format!("{root}/sub/zz.txt")}), Plan::Harness, "mkdir");
+        g.push(
+            json!({"op": "tool", "driver": g.tool_driver(), "name": "write", "args": {"path": "zz.txt", "content": "zz\n"}}),
+            Plan::Tool { name: "write", named: vec!["zz.txt".into()], well_formed: true },
+            "write",
+        );
+        g.push(json!({"op": "fs_mkdir", "path": format!("{root}/sub/zz2.txt")}), Plan::Harness, "mkdir");
+        g.push(
+            json!({"op": "tool", "driver": g.tool_driver(), "name": "apply_patch", "args": {"patch": "*** Begin Patch\n*** Add File: zz2.txt\n+zz2\n*** End Patch"}}),
+            Plan::Tool { name: "apply_patch", named: vec!["zz2.txt".into()], well_formed: true },
+            "patch[add]",
+        );
+        let _ = cwd_name;
+        return g.h;
+    }
+    let n = cfg.tier.pick(10, 14) + g.rng.usize(cfg.tier.pick(14, 30));
+    g.create(None);
+    while g.h.steps.len() < n {
+        let cps: Vec<usize> = g.snaps.keys().cloned().filter(|k| !g.corrupted.contains(k)).collect();
+        match g.rng.below(100) {
+            0..=14 => g.create(None),
+            15..=32 => {
+                if driver == "direct" {
+                    g.harness_edit();
+                } else {
+                    let w = g.write(false);
+                    if g.rng.chance(1, 3) {
+                        g.rewind(w, false);
+                    }
+                }
+            }
+            33..=36 => {
+                if driver != "direct" {
+                    g.write(true);
+                }
+            }
+            37..=52 => {
+                if driver == "direct" {
+                    g.harness_edit();
+                } else {
+                    let p = g.patch();
+                    if g.rng.chance(1, 3) {
+                        g.rewind(p, false);
+                    }
+                }
+            }
+            53..=70 => g.harness_edit(),
+            71..=90 => {
+                if !cps.is_empty() {
+                    let t = *g.rng.pick(&cps);
+                    g.rewind(t, false);
+                }
+            }
+            91..=95 => {
+                if !cps.is_empty() {
+                    let t = *g.rng.pick(&cps);
+                    let how = *g.rng.pick(&["json_garbage", "json_truncate", "remove_stored", "remove_meta"]);
+                    g.push(json!({"op": "corrupt_cp", "ref": t, "how": how}), Plan::Harness, &format!("corrupt_{how}"));
+                    g.corrupted.insert(t);
+                    g.rewind(t, true);
+                }
+            }
+            _ => {
+                let id = format!("{}-0000-4000-8000-{}", g.rng.hex(8), g.rng.hex(12));
+                g.push(json!({"op": "cp_rewind", "driver": if driver == "router" { "router" } else { "runner" }, "id": id}), Plan::RewindUnknown, "rewind_unknown");
+            }
+        }
+    }
+    g.h
+}
 
 pub fn run(cfg: &Cfg) -> i32 {
-    let mut r = Report::new("C14", "exploration", "not built");
-    r.fatal_inconclusive("monitor not built yet");
+    let mut r = Report::new(
+        "C14",
+        "exploration",
+        "seeded histories of 10-40 steps (manual checkpoints over existing / missing / nested paths given relative, './'-prefixed \
+         and absolute; write and constructive apply_patch(add/update/move/delete) through ToolRunner::run or the router with their \
+         automatic checkpoints; raw deletes, mkdir at covered paths, sub-tree removal, external writes; rewinds to any earlier manual or \
+         automatic checkpoint; unknown ids; corrupted checkpoint.json / removed stored copies) x driver (Workspace, ToolRunner + mirror \
+         hook, router + real hook) x process cwd (root, outer, sibling with same-named files, sub-directory, /), one child process per \
+         history; distinct = (cwd, driver, step-shape sequence); non-trivial = at least one successful rewind was judged",
+    );
+    r.assume("a covered path is identified by lexical resolution of the supplied path against the workspace root");
+    r.assume("bytes are compared through sha256 of every regular file under the root (.rip excluded); empty directories are not judged");
+    r.assume("the ToolRunner-level driver uses a line-for-line mirror of ripd's private WorkspaceCheckpointHook; the router driver uses the real one");
+    let base = scratch_root().join(format!("c14-{}", cfg.shard.0));
+    let _ = std::fs::create_dir_all(&base);
+    if let Some(path) = &cfg.replay {
+        let (seed, case) = crate::c12::read_replay(path, cfg.seed);
+        let mut c2 = cfg.clone();
+        c2.seed = seed;
+        one_history(&c2, &mut r, &base, case);
+        let _ = std::fs::remove_dir_all(&base);
+        return r.finish(&c2);
+    }
+    let max_cases = cfg.tier.pick(4_000u64, 100_000_000u64);
+    let mut case = 0u64;
+    while case < max_cases && !r.over(cfg) {
+        let idx = case;
+        case += 1;
+        if !cfg.mine(idx) {
+            continue;
+        }
+        one_history(cfg, &mut r, &base, idx);
+    }
+    let _ = std::fs::remove_dir_all(&base);
+    if r.counters.get("rewinds_succeeded_and_judged").copied().unwrap_or(0) == 0 && r.evaluations > 0 {
+        r.fatal_inconclusive("no successful rewind was observed");
+    }
     r.finish(cfg)
+}
+
+struct Recorded {
+    covered: BTreeMap<String, Option<String>>, // rel path -> state at checkpoint time
+    forms: BTreeMap<String, &'static str>,     // rel path -> "relative" | "absolute"
+    auto: bool,
+}
+
+fn one_history(cfg: &Cfg, r: &mut Report, base: &Path, idx: u64) {
+    let mut rng = cfg.case_rng(idx);
+    let k = base.join(format!("k{idx}"));
+    let l = build_layout(&k, &mut rng);
+    let cwd_name = if idx < DIRECTED {
+        CWDS[idx as usize]
+    } else {
+        match rng.below(20) {
+            0..=6 => "root",
+            7..=10 => "outer",
+            11..=14 => "sibling",
+            15..=17 => "subdir",
+            _ => "fsroot",
+        }
+    };
+    let cwd = cwd_path(&l, cwd_name);
+    let h = gen_history(&l, cfg, idx, cwd_name);
+    let spec = json!({
+        "top": l.top, "root": l.root, "data": l.data, "cwd": cwd, "session": "c14-session",
+        "canaries": [], "sentinels": l.sentinels, "sentinel_dirs": l.sentinel_dirs,
+        "reset_root": false, "want_tree": true, "steps": h.steps,
+    });
+    let run = ws_child::run_child(&l.k, &spec, false, Duration::from_secs(cfg.tier.pick(60, 180)));
+    let Some(doc) = run.doc else {
+        r.inconclusive(&format!("history {idx} (cwd={cwd_name}): {}", run.error.unwrap_or_default()));
+        let _ = std::fs::remove_dir_all(&k);
+        return;
+    };
+    let results: Vec<Value> = doc.get("steps").and_then(|x| x.as_array()).cloned().unwrap_or_default();
+    if results.len() != h.plans.len() {
+        r.inconclusive(&format!("history {idx}: child returned {} of {} steps", results.len(), h.plans.len()));
+    }
+    let cwd_tag = if cwd_name == "root" { "cwd_eq_root" } else { "cwd_ne_root" };
+    let mut prev: Tree = parse_tree(doc.get("initial_tree"));
+    let mut recs: BTreeMap<usize, Recorded> = BTreeMap::new();
+    let mut judged_rewinds = 0u64;
+    let history_json = |upto: usize| -> Value {
+        let mut v = Vec::new();
+        for (i, s) in h.steps.iter().enumerate().take(upto + 1) {
+            let res = results.get(i);
+            v.push(json!({"i": i, "step": s, "ok": res.and_then(|x| x.get("ok")), "error": res.and_then(|x| x.get("error")),
+                          "cp_files": res.and_then(|x| x.get("cp_files")), "cp_meta_files": res.and_then(|x| x.pointer("/cp_meta/files")),
+                          "frame_kinds": res.and_then(|x| x.get("frame_kinds"))}));
+        }
+        json!(v)
+    };
+    for (i, (res, plan)) in results.iter().zip(h.plans.iter()).enumerate() {
+        let cur = parse_tree(res.get("tree"));
+        let ok = res.get("ok").and_then(|x| x.as_bool()).unwrap_or(false);
+        if res.get("timed_out").and_then(|x| x.as_bool()) == Some(true) {
+            r.inconclusive(&format!("history {idx} step {i}: run did not end within the watchdog"));
+            break;
+        }
+        if let Some(why) = res.get("skipped").and_then(|x| x.as_str()) {
+            r.count("steps_skipped", 1);
+            if !why.contains("no checkpoint") && !why.contains("stores no file") {
+                r.inconclusive(&format!("history {idx} step {i}: {why}"));
+            }
+            prev = cur;
+            continue;
+        }
+        let witness = |what: &str, detail: Value| {
+            json!({"case": idx, "cwd": cwd_name, "driver": h.driver, "step": i, "what": what, "detail": detail,
+                   "root": l.root, "history": history_json(i)})
+        };
+        let frame_kinds: Vec<String> = res
+            .get("frame_kinds")
+            .and_then(|x| x.as_array())
+            .map(|a| a.iter().filter_map(|x| x.as_str().map(|s| s.to_string())).collect())
+            .unwrap_or_default();
+        let cp_files: Option<Vec<String>> = res.get("cp_files").and_then(|x| x.as_array()).map(|a| a.iter().filter_map(|x| x.as_str().map(|s| s.to_string())).collect());
+        match plan {
+            Plan::Harness => {}
+            Plan::Create { args } => {
+                r.eval();
+                r.count(if ok { "manual_checkpoints_created" } else { "manual_checkpoint_create_failed" }, 1);
+                let ch = changed_files(&prev, &cur);
+                if !ch.is_empty() {
+                    r.violation(
+                        &format!("C14/checkpoint_create_changed_workspace/{cwd_tag}"),
+                        &format!("creating a checkpoint changed workspace files {:?}", ch),
+                        witness("tree differs after cp_create", json!({"changed": ch})),
+                    );
+                }
+                if ok {
+                    let mut covered = BTreeMap::new();
+                    let mut forms = BTreeMap::new();
+                    for a in args {
+                        if let Some(rel) = normalize(&l.root, a) {
+                            covered.insert(rel.clone(), file_state(&prev, &rel));
+                            forms.insert(rel, if a.starts_with('/') { "absolute" } else { "relative" });
+                        }
+                    }
+                    recs.insert(i, Recorded { covered, forms, auto: false });
+                }
+            }
+            Plan::Tool { name, named, well_formed } => {
+                r.eval();
+                r.count(&format!("tool_{name}_runs"), 1);
+                let ch = changed_files(&prev, &cur);
+                let pos_cp = frame_kinds.iter().position(|k| k == "checkpoint_created");
+                let pos_ts = frame_kinds.iter().position(|k| k == "tool_started");
+                let auto_before = matches!((pos_cp, pos_ts), (Some(a), Some(b)) if a < b) && res.get("cp_auto").and_then(|x| x.as_bool()) == Some(true);
+                if auto_before {
+                    r.count("auto_checkpoint_before_tool_started", 1);
+                }
+                let covered_list: Vec<String> = cp_files.clone().unwrap_or_default().iter().filter_map(|p| normalize(&l.root, p)).collect();
+                let only_litter = !ch.is_empty() && ch.iter().all(|p| p.contains(".tmp-"));
+                if only_litter && !auto_before {
+                    r.violation(
+                        &format!("C14/tool_changed_uncovered_path/{name}/tmp_litter"),
+                        &format!("{name} (ok={ok}) left {:?} behind and no automatic checkpoint covers it (frames: {:?})", ch, frame_kinds),
+                        witness("temporary file left behind by a failed write", json!({"changed": ch, "frames": frame_kinds})),
+                    );
+                } else if !ch.is_empty() && !auto_before {
+                    r.violation(
+                        &format!("C14/edit_without_auto_checkpoint/{name}/{cwd_tag}"),
+                        &format!("{name} changed {:?} but no auto checkpoint_created frame precedes tool_started (frames: {:?})", ch, frame_kinds),
+                        witness("edit without preceding automatic checkpoint", json!({"changed": ch, "frames": frame_kinds})),
+                    );
+                }
+                if auto_before {
+                    if *well_formed {
+                        let missing: Vec<&String> = named.iter().filter(|p| !covered_list.contains(p)).collect();
+                        if !missing.is_empty() {
+                            r.violation(
+                                &format!("C14/auto_checkpoint_misses_named_path/{name}"),
+                                &format!("auto checkpoint of {name} lists {:?} but the invocation names {:?}", covered_list, named),
+                                witness("file list does not cover every named path", json!({"missing": missing})),
+                            );
+                        }
+                    }
+                    let uncovered: Vec<&String> = ch.iter().filter(|p| !covered_list.contains(p)).collect();
+                    if !uncovered.is_empty() {
+                        let litter = uncovered.iter().all(|p| p.contains(".tmp-"));
+                        r.violation(
+                            &format!("C14/tool_changed_uncovered_path/{name}{}", if litter { "/tmp_litter" } else { "" }),
+                            &format!("{name} changed {:?} which its automatic checkpoint {:?} does not cover (tool ok={ok})", uncovered, covered_list),
+                            witness("tool changed a path outside its automatic checkpoint", json!({"uncovered": uncovered, "covered": covered_list})),
+                        );
+                    }
+                    let mut covered = BTreeMap::new();
+                    let mut forms = BTreeMap::new();
+                    for rel in &covered_list {
+                        covered.insert(rel.clone(), file_state(&prev, rel));
+                        forms.insert(rel.clone(), "relative");
+                    }
+                    recs.insert(i, Recorded { covered, forms, auto: true });
+                } else if !ch.is_empty() {
+                    // already reported
+                } else if frame_kinds.iter().any(|k| k == "checkpoint_failed") {
+                    r.count("auto_checkpoint_failed_and_tool_changed_nothing", 1);
+                    // a failed tool may still leave litter
+                }
+                if !ok && !ch.is_empty() {
+                    let litter = ch.iter().all(|p| p.contains(".tmp-"));
+                    r.count(if litter { "failed_write_left_tmp_file" } else { "failed_tool_changed_tree" }, 1);
+                }
+            }
+            Plan::Rewind { target, expect_fail } => {
+                r.eval();
+                let Some(rec) = recs.get(target) else {
+                    // the checkpoint step did not produce a checkpoint: a rewind cannot have been issued
+                    r.count("rewind_of_absent_checkpoint", 1);
+                    prev = cur;
+                    continue;
+                };
+                let kind = if rec.auto { "auto" } else { "manual" };
+                if ok {
+                    judged_rewinds += 1;
+                    r.count("rewinds_succeeded_and_judged", 1);
+                    r.count("covered_paths_compared", rec.covered.len() as u64);
+                    if *expect_fail {
+                        r.count("rewind_of_corrupted_checkpoint_succeeded", 1);
+                    }
+                    let mut reported = false;
+                    for (p, want) in &rec.covered {
+                        let got = file_state(&cur, p);
+                        if &got != want {
+                            let form = rec.forms.get(p).copied().unwrap_or("relative");
+                            let how = match (want, &got) {
+                                (Some(_), None) => "file that existed at the checkpoint is absent after rewind",
+                                (None, Some(_)) => "file that did not exist at the checkpoint is present after rewind",
+                                _ => "file has different bytes than at the checkpoint",
+                            };
+                            r.violation(
+                                &format!("C14/rewind_mismatch/{kind}/{form}/{cwd_tag}"),
+                                &format!("after a successful rewind to a {kind} checkpoint {p:?} ({form} path, cwd={cwd_name}): {how}"),
+                                witness(how, json!({"path": p, "sha_at_checkpoint": want, "sha_after_rewind": got, "sha_before_rewind": file_state(&prev, p),
+                                                    "checkpoint_step": target, "stored_meta": results.get(*target).and_then(|x| x.pointer("/cp_meta/files"))})),
+                            );
+                            reported = true;
+                            break;
+                        }
+                    }
+                    if !reported {
+                        let touched: Vec<String> = changed_files(&prev, &cur).into_iter().filter(|p| !rec.covered.contains_key(p)).collect();
+                        if !touched.is_empty() {
+                            r.violation(
+                                &format!("C14/rewind_touched_uncovered/{kind}/{cwd_tag}"),
+                                &format!("rewind to a {kind} checkpoint changed uncovered paths {:?}", touched),
+                                witness("uncovered path changed by rewind", json!({"touched": touched, "covered": rec.covered.keys().collect::<Vec<_>>()})),
+                            );
+                        }
+                    }
+                } else {
+                    r.count("rewinds_failed", 1);
+                    if *expect_fail {
+                        r.count("corrupted_checkpoint_rewinds_failed_as_expected", 1);
+                    }
+                    let ch = changed_files(&prev, &cur);
+                    if !ch.is_empty() {
+                        r.violation(
+                            &format!("C14/failed_rewind_changed_tree/{kind}/{cwd_tag}"),
+                            &format!("rewind reported failure ({}) but workspace files changed: {:?}", trunc(res.get("error").and_then(|x| x.as_str()).unwrap_or(""), 120), ch),
+                            witness("tree differs after a failed rewind", json!({"changed": ch})),
+                        );
+                    } else {
+                        r.count("failed_rewinds_left_tree_identical", 1);
+                    }
+                }
+            }
+            Plan::RewindUnknown => {
+                r.eval();
+                let ch = changed_files(&prev, &cur);
+                if ok || !ch.is_empty() {
+                    r.violation(
+                        "C14/unknown_checkpoint_id",
+                        &format!("rewind to an unknown id: ok={ok}, changed files {:?}", ch),
+                        witness("unknown id", json!({"changed": ch})),
+                    );
+                } else {
+                    r.count("unknown_id_rewinds_failed_cleanly", 1);
+                }
+            }
+        }
+        prev = cur;
+    }
+    if judged_rewinds > 0 {
+        r.distinct_str(&format!("{cwd_name}|{}|{}", h.driver, h.shape.join(">")));
+    }
+    r.count(&format!("histories_cwd_{cwd_name}"), 1);
+    r.count(&format!("histories_driver_{}", h.driver), 1);
+    r.count("steps_executed", results.len() as u64);
+    if idx >= DIRECTED && r.samples.len() < r.max_samples {
+        r.sample(json!({"case": idx, "cwd": cwd_name, "driver": h.driver, "shape": h.shape, "judged_rewinds": judged_rewinds}));
+    }
+    let _ = std::fs::remove_dir_all(&k);
 }
